@@ -593,10 +593,17 @@ class Interp:
         else:
             st.pop(lhs["l"], None)
 
-    def _feed(self, callee_path, argvals, caller=None):
+    def _feed(self, callee_path, argvals, caller=None, subst=None):
         f = self.F.fns.get(callee_path)
         if f is None:
             return
+        if subst and f["def_kind"] == "Closure" and any(b["t"]["k"] == "call" and b["t"].get("trait") and not b["t"].get("resolved") for b in f["blocks"]):
+            # a closure of a generic helper (`|x| T::parse(x)` in `parse_each::<T>`): interpret the instance the (inlined)
+            # helper was called with, each instance under its own name
+            g = mir.instantiate_body(self.F, f, subst)
+            if g["path"] not in self._bodies:
+                self._bodies[g["path"]] = g
+            callee_path = g["path"]
         off = 2 if f["def_kind"] == "Closure" else 1
         for i, v in enumerate(argvals):
             if v is not None and v[0] in (PAIR, PAIRS, OPT):
@@ -795,7 +802,7 @@ class Interp:
                     elif o.kind == "const" and "fn" in o.const:
                         tgt = o.const.get("fn_resolved") or o.const["fn"]
                     if tgt in self.F.fns:
-                        self._feed(tgt, [av], path)
+                        self._feed(tgt, [av], path, subst=t.get("subst"))
         elif callee in ("std::iter::IntoIterator::into_iter", "std::ops::Try::branch", "std::clone::Clone::clone",
                         "std::result::Result::<T, E>::map_err", "std::result::Result::<T, E>::unwrap", "std::result::Result::<T, E>::expect"):
             res = a0 if a0 is not None and a0[0] != REF else (self._deref(st, a0[1])[1] if a0 is not None else None)
@@ -870,7 +877,7 @@ class Interp:
                 elem = (PAIR, self.G.alphabet(a0[1])) if a0[0] == PAIRS else (PAIR, a0[1])
                 for fr in t["fnrefs"]:
                     if fr in self.F.fns and elem[1]:
-                        self._feed(fr, [elem], path)
+                        self._feed(fr, [elem], path, subst=t.get("subst"))
                 if a0[0] == PAIRS and callee.startswith("std::iter::Iterator::"):
                     # adaptor keeps iterating the same pairs lazily; nothing more to track
                     pass
